@@ -174,3 +174,26 @@ def parse_log(out):
         else:
             ev.append(("T", None, line))
     return ev
+
+
+def pinned_internal_errors(prop, work):
+    """Replays the pinned repro programs of this property's known findings that are internal compiler errors
+    (entries with "pinned_internal_error": true). Returns violation dicts whose sig matches the finding when the
+    program still ends in that internal error (so the check prints KNOWN-FINDING), and notes for repros that no
+    longer fail. The generators avoid the feature; the pinned program keeps the finding visible."""
+    import json as _json
+    out, notes = [], []
+    known = C.load_known()
+    for f in known.get("findings", []):
+        if f.get("property") != prop or not f.get("pinned_internal_error"):
+            continue
+        path = os.path.join(C.VERIF, f["repro"])
+        text = open(path, encoding="utf-8").read()
+        d = os.path.join(work, "pinned_" + f["id"])
+        c = compile_capy(d, {"main.capy": text})
+        if c.internal_error:
+            out.append({"key": "internal_error", "sig": "internal_error|" + c.panic_sig(),
+                        "what": f"pinned repro {f['repro']}: internal compiler error", "witness": {"files": {"main.capy": text}}})
+        else:
+            notes.append(f"pinned repro {f['repro']} of {f['id']} no longer ends in an internal error (accepted={c.accepted})")
+    return out, notes
